@@ -174,13 +174,17 @@ class Telomere:
     def start(self):
         """Start the agent lifecycle (transition from NASCENT to ACTIVE)."""
         with self._lock:
-            if self._phase != LifecyclePhase.NASCENT:
-                return
+            self._start_locked()
 
-            self._started_at = datetime.now()
-            self._last_activity = self._started_at
-            self._transition_to(LifecyclePhase.ACTIVE)
-            self._log_event("started")
+    def _start_locked(self):
+        """NASCENT -> ACTIVE; the caller holds the lock."""
+        if self._phase != LifecyclePhase.NASCENT:
+            return
+
+        self._started_at = datetime.now()
+        self._last_activity = self._started_at
+        self._transition_to(LifecyclePhase.ACTIVE)
+        self._log_event("started")
 
     def tick(self, cost: int = 1) -> bool:
         """
@@ -196,7 +200,7 @@ class Telomere:
 
             # Auto-start if still nascent
             if self._phase == LifecyclePhase.NASCENT:
-                self.start()
+                self._start_locked()
 
             self._operations_count += 1
             self._telomere_length = max(0, self._telomere_length - cost)
@@ -215,6 +219,10 @@ class Telomere:
         False if error threshold triggered senescence.
         """
         with self._lock:
+            # Auto-start if still nascent (a lifecycle never ages before it is active)
+            if self._phase == LifecyclePhase.NASCENT:
+                self._start_locked()
+
             self._error_count += 1
             self._log_event("error", {"error_count": self._error_count})
 
